@@ -185,6 +185,17 @@ def run(tier: str, seed: int) -> int:
     env0 = bytes.fromhex(suitcases.run_impl_create(strip_blocks(desc0), files0)["ok"])
     reuse.signer_reuse(res, env0, PROP)
     reuse.signature_value_sweep(res, env0, PROP, 2400 if tier == "quick" else 40000)
+    # the same statement for every envelope of a hierarchy signed in one go (sign recursive), three and four levels deep: each level gets exactly
+    # its block, verifiable, and nothing else changes
+    from . import c09
+    deep = common.pmap(c09.work_recursive, [(seed, 880000 + i, "valid", 3 + i % 2) for i in range(12 if tier == "quick" else 120)], chunk=2)
+    for i, o in enumerate(deep):
+        if o is None:
+            continue
+        res.case(["recursive-depth", i, o.get("nodes")], nontrivial=True)
+        res.count("recursive-depth:config-nodes:" + str(min(o.get("nodes", 0), 6)))
+        for p_ in o["problems"]:
+            res.spec_failures.append({"job": ["rec", seed, 880000 + i, "valid", 3 + i % 2], "what": "sign recursive: " + p_})
     drv.close()
     return finish(res, st, RULE, NOTE)
 
